@@ -11,10 +11,12 @@
     * `independent`, `copy_independent`  distinct arrays own distinct blocks; mutation of a copy is invisible to the original, and back
     * `move_leaves_empty_valid`       move construction / assignment: value transferred, same block (no element copied), source empty and valid
     * `self_assign_id`, `swap_exchanges`
-    * `abs_step_views_partial`        what is proved for the operations whose source is a view (see the comment there)
+    * `view_ctor_copies`              `array(view)` / `+view` / `view.decay()`: the view's extents and its elements in canonical order, in a fresh block
+    * `abs_step_views_partial`        what is proved for the other operations whose source is a view (see the comment there)
 -/
 import MultiProofs.OwnStep
 import MultiProofs.OwnObs
+import MultiProofs.OwnView
 
 namespace Multi
 namespace C04
@@ -147,7 +149,31 @@ theorem swap_exchanges (cfg : Cfg α) (p : Pool α) (hi : Inv p) (j k : Nat) (a 
   · rw [a1]; simp [specStep, upd, hjk]
   · rw [a1]; simp [specStep, upd]
 
-/-- **operations whose source is a view** (`array(view)`, `A = view` in both overloads, `+view` / `view.decay()`), assignment from an
+/-- **construction from a view of any layout** (`array(view)`, `+view`, `view.decay()`; `view` any WF view with at least one element
+    whose elements lie in the live block `s` — by C01 every view reachable from an array is such): the element-wise copy through
+    `elements().begin()`, `++`, … visits the view in canonical order (`Own.elemAddrs_eq`), so the new array has the view's extensions
+    and exactly the elements the view designates, in a block that did not exist before; every other block is untouched. -/
+theorem view_ctor_copies (h : Heap α) (s : Nat) (scs : List (Cell α)) (hs : Live h s scs) (v : View) (hv : C02.NonEmpty v)
+    (hin : ∀ idx ∈ boxIndices v.exts, 0 ≤ v.addr idx ∧ (v.addr idx).toNat < scs.length) :
+    let r := viewCtor h (some s) v
+    Valid r.1 r.2 ∧ absArr r.1 r.2 = ⟨collapse v.exts, viewCells scs v⟩ ∧ r.1.ub = h.ub ∧ r.1.asrt = h.asrt ∧
+    (∀ b cs, Live h b cs → Live r.1 b cs) ∧ (∀ b, r.2.base = some b → h.blocks.length ≤ b) := by
+  intro r
+  have ho := viewCtor_outcome h s scs hs v hv hin
+  have hn : r.2.numElements ≠ 0 := by
+    have hN := nElems_eq_prodSizes v.lay hv.wf
+    have hp := prodSizes_pos hv.pos
+    have hx : r.2.exts = collapse v.exts := congrArg AbsArr.exts ho.abs
+    rw [← ho.valid.nElems_exts, hx, nElems_collapse]
+    have : nElems v.exts = prodSizes (Layout.sizes v.lay) := hN
+    omega
+  refine ⟨ho.valid, ho.abs, ho.ub, ho.asrt, fun b cs hl => ho.frame b cs hl (fun hf => hf), ?_⟩
+  intro b hb
+  rcases ho.own hn b hb with hf | hf
+  · exact False.elim hf
+  · exact hf
+
+/-- **the other operations whose source is a view** (`A = view` in both overloads), assignment from an
     array of another element type, `operator=(initializer_list)` / `assign(first,last)` in place, and `std::swap`.
     PARTIAL.  Full statement: `abs_step` for these operations too, with `specStep` = "extensions of the view (collapsed), elements
     `[src[view's index map idx] | idx in canonical order]`".
@@ -155,9 +181,11 @@ theorem swap_exchanges (cfg : Cfg α) (p : Pool α) (hi : Inv p) (j k : Nat) (a 
     (`std::swap` = move-construct + two move-assignments, `A = view` with other extensions = construct + move-assign), copy assignment
     in place and with reallocation (the three branches of assignment from another element type are `cassign` in place,
     `reshape` + `cassign` in place, `copy` + `massign`), and `reshape`.
-    Missing: the element-wise copy loop through two `elements()` iterators (`Own.copyAddrs ∘ Own.elemAddrs`) as a map on cells; the
-    iterator side is available (C02.elemit_inc / elemit_deref, and `Own.boxIndices_rank` for the enumeration), the scatter lemma for
-    `copyAddrs` on an arbitrary injective destination address list is not proved.  These operations are therefore covered by the
+    Proved in addition: construction from a view (`view_ctor_copies`), hence `A = view` with other extensions and another element
+    count (this theorem: it IS construct + move-assign + destroy).
+    Missing: the element-wise copy through two `elements()` iterators INTO AN EXISTING array / slice as a map on cells (`Own.copyElems`):
+    the source side is `Own.elemAddrs_eq`, the scatter lemma for `copyAddrs` on a destination address list other than `0, 1, 2, …`
+    is not proved.  These operations are therefore covered by the
     correspondence run (both element types, views of up to three chained operations, sources of D and D+1) and by the reference model
     inside the harness, not by a theorem. -/
 theorem abs_step_views_partial (cfg : Cfg α) (h : Heap α) (self : Arr) (sb : Option BlockId) (v : View)
